@@ -49,6 +49,7 @@ type runCfg struct {
 	Workers int
 	Timeout time.Duration
 	ASLimit uint64 // RLIMIT_AS for children (0 = none)
+	NoHeap  bool   // the peak heap is not needed (C08): children run with GOMAXPROCS=1 and a slow sampler
 }
 
 type child struct {
@@ -86,7 +87,11 @@ var selfExe = func() string {
 
 func startChild(cfg runCfg) (*child, error) {
 	cmd := exec.Command(selfExe, childFlag)
-	cmd.Env = append(os.Environ(), "GOMAXPROCS=2", "GOTRACEBACK=single")
+	if cfg.NoHeap {
+		cmd.Env = append(os.Environ(), "GOMAXPROCS=1", "GOTRACEBACK=single", "PARSERS_SAMPLE_US=200000")
+	} else {
+		cmd.Env = append(os.Environ(), "GOMAXPROCS=2", "GOTRACEBACK=single", "PARSERS_SAMPLE_US=2000")
+	}
 	if cfg.ASLimit > 0 {
 		cmd.Env = append(cmd.Env, "PARSERS_AS_LIMIT="+strconv.FormatUint(cfg.ASLimit, 10))
 	}
@@ -132,14 +137,24 @@ func (c *child) kill() {
 
 // childPool keeps children alive between chunks (process start is expensive on a loaded machine).
 type childPool struct {
-	mu   sync.Mutex
-	idle []*child
+	mu     sync.Mutex
+	idle   []*child
+	noHeap bool // kind of the idle children
 }
 
 var pool childPool
 
 func (p *childPool) get(cfg runCfg) (*child, error) {
 	p.mu.Lock()
+	if p.noHeap != cfg.NoHeap { // kind changed: retire the idle children of the other kind
+		old := p.idle
+		p.idle, p.noHeap = nil, cfg.NoHeap
+		p.mu.Unlock()
+		for _, ch := range old {
+			ch.kill()
+		}
+		p.mu.Lock()
+	}
 	if n := len(p.idle); n > 0 {
 		ch := p.idle[n-1]
 		p.idle = p.idle[:n-1]
@@ -149,10 +164,15 @@ func (p *childPool) get(cfg runCfg) (*child, error) {
 	p.mu.Unlock()
 	return startChild(cfg)
 }
-func (p *childPool) put(ch *child) {
+func (p *childPool) put(ch *child, cfg runCfg) {
 	p.mu.Lock()
-	p.idle = append(p.idle, ch)
+	if p.noHeap == cfg.NoHeap {
+		p.idle = append(p.idle, ch)
+		p.mu.Unlock()
+		return
+	}
 	p.mu.Unlock()
+	ch.kill()
 }
 
 // ClosePool terminates the idle children.
@@ -228,7 +248,7 @@ func runChunk(cfg runCfg, cases []Case, res []Res, lo, hi int) {
 		if restart {
 			ch.kill()
 		} else {
-			pool.put(ch)
+			pool.put(ch, cfg)
 		}
 	}
 }
